@@ -35,7 +35,7 @@ META = dict(
     rule="fault placements: configs with 1-2 healthy tests (gross_range, spike, probe, pressure_increasing) on stream v "
          "and EVERY placement of 1-2 failing entries from 8 fault kinds (unknown module, unknown test, parameters the "
          "function rejects [2 kinds], required input (depth) not supplied by the stream, function raising while "
-         "evaluating, the 'aggregate' entry, stream id absent from the data): in the same stream in every order "
+         "evaluating, the 'aggregate' entry, stream id absent from the data, listed before and after the healthy stream): in the same stream in every order "
          "relative to the healthy entries, in another stream, in another context without and with a window; on each of "
          "the 9 front-end variants; results collected as list and dict. Oracle: the run and both collections complete "
          "without raising; no failing entry contributes a result; every healthy (stream,test) result equals, bit for "
@@ -85,9 +85,15 @@ def make_contexts(case):
             fault_keys.append(("v", e[1]))
     pool = healthy + same
     main = [pool[i] for i in order] if order else pool
-    streams = {"v": build_stream(main)}
+    streams = {}
+    if case.get("ghost_first"):
+        for sid, es in others.items():
+            if sid == "ghost":
+                streams[sid] = build_stream(es)
+    streams["v"] = build_stream(main)
     for sid, es in others.items():
-        streams[sid] = build_stream(es)
+        if sid not in streams:
+            streams[sid] = build_stream(es)
     ctxs = [dict(streams=streams)]
     for e, place in ctx2:
         c = dict(streams={"v": build_stream([e])})
@@ -204,6 +210,8 @@ def run_task(task, acc):
             perms = list(itertools.permutations(range(k))) if len(real) <= 2 else [tuple(range(k)), tuple(reversed(range(k)))]
             for order in perms:
                 yield dict(fe=fe, n=n, healthy=hs, faults=[[f, "same-stream"] for f in combo], order=list(order))
+                if "absent-stream" in combo:
+                    yield dict(fe=fe, n=n, healthy=hs, faults=[[f, "same-stream"] for f in combo], order=list(order), ghost_first=True)
             # (b) every other placement (all faults together), (c) mixed: first fault in-stream, the rest elsewhere
             for place in PLACEMENTS[1:]:
                 if fe in ("numpy:nd", "qcconfig") and place == "other-stream":
